@@ -70,10 +70,15 @@ pub fn child_main(args: &[String]) -> i32 {
     let (db, policy, hist, k, kind) = (&args[0], &args[1], &args[2], args[3].parse::<usize>().unwrap_or(0), &args[4]);
     let rt = tokio::runtime::Builder::new_multi_thread().worker_threads(2).enable_all().build().expect("rt");
     let steps: Vec<char> = hist.chars().take(k).collect();
-    let abort = kind == "abort";
+    let abort = kind == "abort" || kind == "count" || kind.starts_with("commit-");
     rt.block_on(async {
         let node = p2panda::builder().signing_key(key_a()).database_url(&format!("sqlite://{db}")).ack_policy(policy_of(policy)).spawn().await.expect("spawn");
         let (tx, mut rx) = node.stream::<String>(topic()).await.expect("stream");
+        // kind "commit-<k>": the process aborts right after the k-th transaction commit of the
+        // history (hook in p2panda-store, cfg p2panda_p2panda_verif), wherever inside a step that is;
+        // any other kind only counts the commits
+        let abort_after: u64 = kind.strip_prefix("commit-").and_then(|k| k.parse().ok()).unwrap_or(0);
+        p2panda_store::verif::set_abort_after_commit(abort_after);
         let mut published = 0;
         // author B's log as this node has accepted it so far
         let (mut b_seq, mut b_last): (u32, Option<Hash>) = (0, None);
@@ -132,6 +137,8 @@ pub fn child_main(args: &[String]) -> i32 {
                     // acknowledge the two oldest received events concurrently
                     if acked + 2 <= received.len() {
                         let (i1, i2) = (received[acked], received[acked + 1]);
+                        say(&format!("ACKING {i1}"));
+                        say(&format!("ACKING {i2}"));
                         let (r1, r2) = tokio::join!(rx.ack(i1), rx.ack(i2));
                         if r1.is_ok() {
                             say(&format!("ACKED {i1}"));
@@ -147,6 +154,7 @@ pub fn child_main(args: &[String]) -> i32 {
                 'A' => {
                     if acked < received.len() {
                         let id = received[acked];
+                        say(&format!("ACKING {id}"));
                         if rx.ack(id).await.is_ok() {
                             say(&format!("ACKED {id}"));
                         }
@@ -158,6 +166,7 @@ pub fn child_main(args: &[String]) -> i32 {
                 _ => {}
             }
         }
+        say(&format!("COMMITS {}", p2panda_store::verif::commits()));
         say("CRASH");
         if abort {
             std::process::abort();
@@ -298,7 +307,7 @@ fn run_case(dir: &str, n: u64, policy: &str, hist: &str, k: usize, kind: &str) -
             return out;
         }
     };
-    if !lines.iter().any(|l| l == "CRASH") {
+    if !lines.iter().any(|l| l == "CRASH") && !kind.starts_with("commit-") {
         out.machinery = Some(format!("{}: child did not reach the crash point: {lines:?}", out.desc));
         cleanup(&db);
         return out;
@@ -404,6 +413,22 @@ fn run_case(dir: &str, n: u64, policy: &str, hist: &str, k: usize, kind: &str) -
                 }
             }
         }
+        // an acknowledgement that was in flight when the process was aborted inside it (commit-
+        // granularity crash points) may or may not have taken effect: if the persisted cursor
+        // covers it, it counts as acknowledged
+        for id in grab("ACKING ") {
+            if acked.contains(&id) {
+                continue;
+            }
+            if let Some((a, s)) = order_of(&id) {
+                if view.cursor.get(&a).is_some_and(|h| *h >= s) {
+                    let e = acked_height.entry(a).or_insert(s);
+                    if *e < s {
+                        *e = s;
+                    }
+                }
+            }
+        }
         for ((a, s), (id, has_body)) in &view.stored {
             if *has_body && acked_height.get(a).is_none_or(|h| s > h) && !rset.contains(id) {
                 out.violations.push((
@@ -427,7 +452,7 @@ pub fn run(mut rep: Report) -> i32 {
     // thorough: histories with an invalid (X) or a body-less system operation (Y) up to length 4
     // (two concurrent acknowledgements, B, need two received events: those histories have length 5 and end in B)
     let thorough_filter = |h: &str| !has_xy(h) || h.len() <= 4 || (h.ends_with('B') && h.matches('B').count() == 1 && !h.contains('X') && !h.contains('Y'));
-    rep.rule = format!("every history of length <= {max_len} over {{P publish+await processing, p publish without awaiting, I import an operation of a second author, R receive one event, A acknowledge the oldest received event, X import a body-less operation of the second author that ingest rejects (sequence gap), Y import a valid body-less (system-level) operation of the second author, B acknowledge the two oldest received events concurrently}} (X/Y histories up to length 4, B as last step) x both AckPolicy values x every crash point k (after each prefix) x {{orderly drop, abort()}}; histories are reduced to those whose steps are all effective (an R/A with nothing to receive/ack is skipped); child process on a file-backed database, then database inspection and a re-opened node streaming from the frontier; non-trivial = case with a non-empty replay after the application had received or acknowledged something");
+    rep.rule = format!("every history of length <= {max_len} over {{P publish+await processing, p publish without awaiting, I import an operation of a second author, R receive one event, A acknowledge the oldest received event, X import a body-less operation of the second author that ingest rejects (sequence gap), Y import a valid body-less (system-level) operation of the second author, B acknowledge the two oldest received events concurrently}} (X/Y histories up to length 4, B as last step) x both AckPolicy values x every crash point k (after each prefix) x {{orderly drop, abort()}}; in addition, for a few histories, an abort() right after every single transaction commit of the history (commit-granularity crash points inside publish / ingest / acknowledge); histories are reduced to those whose steps are all effective (an R/A with nothing to receive/ack is skipped); child process on a file-backed database, then database inspection and a re-opened node streaming from the frontier; non-trivial = case with a non-empty replay after the application had received or acknowledged something");
     let dir = if std::path::Path::new("/dev/shm").is_dir() { "/dev/shm".to_string() } else { std::env::temp_dir().display().to_string() };
     // enumerate histories (canonical: R only if something can be pending, A only if something received and unacked)
     let mut hists: Vec<String> = vec![];
@@ -474,6 +499,37 @@ pub fn run(mut rep: Report) -> i32 {
             }
         }
     }
+    // commit-granularity crash points: for a few histories the process is aborted right after
+    // every single transaction commit (counted by a first, uncrashed run of the history)
+    let commit_hists: &[&str] = if thorough { &["P", "p", "I", "PP", "PI", "IP", "PR", "PRA", "IRA", "PPR", "Y", "IY"] } else { &["P", "PI", "PRA"] };
+    let mut commit_cases = 0usize;
+    for policy in ["explicit", "automatic"] {
+        for h in commit_hists {
+            if policy == "automatic" && h.contains('A') {
+                continue;
+            }
+            let db = format!("{dir}/c15-{}-count.sqlite", std::process::id());
+            for sfx in ["", "-wal", "-shm", "-journal"] {
+                let _ = std::fs::remove_file(format!("{db}{sfx}"));
+            }
+            let ks = h.len().to_string();
+            let n = match run_child(&["C15-child", &db, policy, h, &ks, "count"], Duration::from_secs(120)) {
+                Ok((lines, _)) => lines.iter().filter_map(|l| l.strip_prefix("COMMITS ").and_then(|x| x.trim().parse::<u64>().ok())).next_back().unwrap_or(0),
+                Err(e) => {
+                    rep.machinery_error(format!("counting commits of history {h} ({policy}): {e}"));
+                    0
+                }
+            };
+            for sfx in ["", "-wal", "-shm", "-journal"] {
+                let _ = std::fs::remove_file(format!("{db}{sfx}"));
+            }
+            for k in 1..=n {
+                cases.push((policy.to_string(), h.to_string(), format!("commit-{k}")));
+                commit_cases += 1;
+            }
+        }
+    }
+    rep.set("commit_granularity_crash_cases", json!(commit_cases));
     let threads = rep.args.threads.clamp(1, 16);
     let counter = std::sync::atomic::AtomicUsize::new(0);
     let deadline = std::time::Instant::now() + Duration::from_secs(if thorough { 2400 } else { 300 });
@@ -525,7 +581,7 @@ pub fn run(mut rep: Report) -> i32 {
     }
     rep.set("crash_cases", json!(cases.len()));
     rep.set("info_automatic_policy_ops_acked_before_the_application_received_them", json!(unseen));
-    rep.assume("a crash after prefix k of a history equals the history of length k crashed at its end, so every history is crashed once at its end (both kinds); crash points are step boundaries");
+    rep.assume("a crash after prefix k of a history equals the history of length k crashed at its end, so every history is crashed once at its end (both kinds); crash points are step boundaries, plus (for the histories listed under commit-granularity) every transaction commit");
     rep.assume("a SQLite commit is durable against process abort; power loss is outside the property");
     rep.assume("under AckPolicy::Automatic an operation counts as acknowledged when the node acknowledged it on delivery into the subscription, even if the application had not yet taken it from the subscription (counted in info_automatic_policy_ops_acked_before_the_application_received_them, not a violation)");
     rep.finish()
